@@ -101,7 +101,7 @@ class Ref:
         self.d6 = False      # a string literal / escaped identifier is followed by a comment or a directive (known class D6)
 
     def note_trivia(self, t, k):
-        while k < len(t) and t[k] in " \t\r\n":
+        while k < len(t) and t[k] in " \t\r\n\f":
             k += 1
         if t.startswith("`", k) or t.startswith("//", k) or t.startswith("/*", k):
             self.d6 = True
